@@ -394,7 +394,7 @@ type ReplayFunc func(replay json.RawMessage) (ok bool, report string)
 var replayers = map[string]ReplayFunc{}
 
 func RegisterReplay(prop string, f ReplayFunc) { replayers[prop] = f }
-func LookupReplay(prop string) ReplayFunc       { return replayers[prop] }
+func LookupReplay(prop string) ReplayFunc      { return replayers[prop] }
 
 // WorkDir returns a fresh scratch directory under Root/.work (never /tmp).
 func WorkDir(tag string) string {
